@@ -6,7 +6,7 @@
    theorems state what happens whenever the callback completes; the Examples are the failing histories. *)
 From Coq Require Import String List NArith Lia Bool.
 From Ax Require Import Lib.Bytes Lib.Mvx Lib.SolAbi Lib.Keccak Model.Check Model.Env Model.Gateway Model.TokenManager Model.Its
-     Proofs.GatewayMsgs Proofs.TMFacts Proofs.ItsFacts Proofs.ItsWorld Proofs.ItsMore Proofs.ItsOutbound Proofs.ItsCustody Gen.Generated.
+     Proofs.GatewayMsgs Proofs.TMFacts Proofs.ItsFacts Proofs.ItsWorld Proofs.ItsMore Proofs.ItsOutbound Proofs.ItsCustody Proofs.ItsIds Gen.Generated.
 Import ListNotations.
 Open Scope N_scope.
 
@@ -74,12 +74,28 @@ Section C17.
     (io_ok (snd r) = true -> sb S x (fst r) + HP x w = sb S x w + HP x (fst r)) /\
     (io_ok (snd r) = false -> fst r = w \/ (sb S x (fst r) = sb S x w /\ HP x w = HP x (fst r) + held x p)).
   Proof. exact (props_custody H verify S x). Qed.
+  (* the NoDup hypothesis holds in every reachable world (Proofs/ItsIds.v: pending ids are pairwise distinct and below the
+     counter — invariant over all 25 operation kinds) *)
+  Theorem c17_ids_distinct_reachable : forall w0 ops, iw_pend w0 = [] -> NoDup (map ip_id (iw_pend (irun H verify w0 ops))).
+  Proof. exact (reachable_ids_distinct H verify). Qed.
+  Theorem c17_props_custody_reachable : forall w0 ops c id res p, iw_pend w0 = [] ->
+    let w := irun H verify w0 ops in
+    ic_self c = S -> i_gas (iw_its w) <> S -> (forall tid, tm_addr (iw_its w) tid <> S) ->
+    find_ip id (iw_pend w) = Some p -> props_sep S w p ->
+    let r := istep H verify w (IProps c id res) in
+    (io_ok (snd r) = true -> sb S x (fst r) + HP x w = sb S x w + HP x (fst r)) /\
+    (io_ok (snd r) = false -> fst r = w \/ (sb S x (fst r) = sb S x w /\ HP x w = HP x (fst r) + held x p)).
+  Proof.
+    intros w0 ops c id res p E w Es ng nt F PS.
+    exact (props_custody H verify S x w c id res p Es ng nt (reachable_ids_distinct H verify w0 ops E) F PS).
+  Qed.
 End C17.
 Print Assumptions c17_metadata_callback.
 Print Assumptions c17_remote_callback.
 Print Assumptions c17_sync_custody.
 Print Assumptions c17_callback_custody.
 Print Assumptions c17_props_custody.
+Print Assumptions c17_props_custody_reachable.
 
 (* non-vacuity of the custody equation: registerTokenMetadata with 777 EGLD in the world of Proofs/ItsMore.v:
    the premises hold, the service's EGLD balance grows by 777 and the new lookup holds exactly 777 *)
